@@ -23,7 +23,7 @@ ASSUMPTIONS = [
 ]
 
 def plan(tier):
-    return dict(runs=2400 if tier == 'quick' else 80000, timeout=300 if tier == 'quick' else 3600)
+    return dict(runs=6000 if tier == 'quick' else 80000, timeout=300 if tier == 'quick' else 3600)
 
 def check_export(model):
     """None or (site, message)."""
@@ -138,7 +138,7 @@ def run(ctx):
     logic = proofwl.pick_logic(rng, ctx.index, SALTS)
     sem = refsem.get(logic)
     gt = modelsim.ground_truth(rng, sem)
-    calls = modelsim.history_from(ctx.rng('history'), gt, sem)
+    calls = modelsim.history_from(ctx.rng('history'), gt, sem, conflicts=True)
     try:
         m = modelsim.apply_history(logic, calls)
     except Exception:
